@@ -2331,6 +2331,16 @@ def b_route( ctx ):
                 try:
                     got = accept( cfgv, reqv )
                 except NoFold as exc:
+                    # the request's segments handed to one of the helpers that read configuration TEXT ( they try int() on a link first ):
+                    # what is compared is then no longer what the request carried
+                    conv = [ c for c in ast.walk( test ) if isinstance( c, ast.Call ) and ( call_name( c ) or '' ).split( '.' )[-1] in ( 'port_link', 'parse_route_path', 'parse_connection_path' )
+                             and any( isinstance( x, ast.Name ) and ( x.id == RP or any( isinstance( g_, ast.comprehension ) and RP in names_in( g_.iter ) and x.id in names_in( g_.target )
+                                                                                         for p_ in ast.walk( test ) if isinstance( p_, ( ast.ListComp, ast.GeneratorExp )) for g_ in p_.generators ))
+                                      for a_ in c.args for x in ast.walk( a_ )) ]
+                    if conv:
+                        res.bad( src, node, 'route acceptance: the request route path is passed through %s before it is compared' % call_name( conv[0] ),
+                                 "the helper reads configuration text and tries int() on a link first: a request whose link is the ADDRESS '0' ( wire 11 01 30 00 ) is compared as the link NUMBER 0 and accepted by a device configured 1/0 - request paths that differ in link kind must be refused" )
+                        return res
                     raise AnalysisError( 'acceptance expression uses the route paths beyond truthiness / is None / == : %s' % exc )
                 want = route_expected( kind, rkind )
                 fact = 'configured %s (%r) x request %s (%r): %s' % ( kind, cfgv, rkind, reqv, 'accept' if got else 'refuse' )
